@@ -31,6 +31,9 @@ EXPLANATION = (
     " anything is resolved, so C12's addition table (every ordered unit pair) runs here as well."
     " R03.13 also carries C12's value table (every unit of Length.value against the CSS ratio); R03.14: C06's"
     ' rule that Rect.render repeats the corner clamp once the lengths are resolved, unconditionally.'
+    " R03.15: every render() of an element class hands on to its base classes' render (where the lengths and"
+    ' the unit-bearing translations of the transform are resolved) as an unconditional statement, before any'
+    ' exit.'
 )
 TECHNIQUE = (
     "static analysis (no execution): attribute-key tables read off property_by_values vs keys removed from the inherited dictionary; path counting of push/pop over the statement structure; typestate order render-before-reify; axis/reference agreement in render methods"
